@@ -216,6 +216,17 @@ impl World {
                 CosmosMsg::Distribution(DistributionMsg::SetWithdrawAddress { address: self.pool.addr(0).to_string() })
             }
             CMsg::Withdraw => CosmosMsg::Distribution(DistributionMsg::WithdrawDelegatorReward { validator: "val1".into() }),
+            // re-entrant calls of the proxy's own admin handlers (both contracts share these two variants)
+            CMsg::Other(900) => CosmosMsg::Wasm(WasmMsg::Execute {
+                contract_addr: self.proxy.as_ref().map(|a| a.to_string()).unwrap_or_default(),
+                msg: to_json_binary(&WlExec::<cosmwasm_std::Empty>::UpdateAdmins { admins: vec![self.pool.addr(1).to_string()] }).unwrap(),
+                funds: vec![],
+            }),
+            CMsg::Other(901) => CosmosMsg::Wasm(WasmMsg::Execute {
+                contract_addr: self.proxy.as_ref().map(|a| a.to_string()).unwrap_or_default(),
+                msg: to_json_binary(&WlExec::<cosmwasm_std::Empty>::Freeze {}).unwrap(),
+                funds: vec![],
+            }),
             CMsg::Other(tag) => match tag % 3 {
                 0 => CosmosMsg::Wasm(WasmMsg::Execute {
                     contract_addr: self.pool.addr(0).to_string(),
@@ -241,6 +252,13 @@ impl World {
             CosmosMsg::Staking(StakingMsg::Redelegate { .. }) => CMsg::Redelegate,
             CosmosMsg::Distribution(DistributionMsg::SetWithdrawAddress { .. }) => CMsg::SetWithdraw,
             CosmosMsg::Distribution(DistributionMsg::WithdrawDelegatorReward { .. }) => CMsg::Withdraw,
+            CosmosMsg::Wasm(WasmMsg::Execute { msg, contract_addr, .. }) if Some(contract_addr.as_str()) == self.proxy.as_ref().map(|a| a.as_str()) => {
+                match from_json::<WlExec<cosmwasm_std::Empty>>(msg) {
+                    Ok(WlExec::UpdateAdmins { .. }) => CMsg::Other(900),
+                    Ok(WlExec::Freeze {}) => CMsg::Other(901),
+                    _ => CMsg::Other(u64::MAX),
+                }
+            }
             CosmosMsg::Wasm(WasmMsg::Execute { msg, .. }) => {
                 let s: String = from_json(msg).unwrap_or_default();
                 CMsg::Other(s.trim_start_matches("tag").parse().unwrap_or(u64::MAX))
@@ -597,6 +615,12 @@ fn gen_admins(r: &mut Rng, n: usize) -> Vec<Arg> {
 }
 
 fn gen_send(r: &mut Rng, n: usize, al: Option<&Al>) -> CMsg {
+    // an allowance record that is still stored but has been spent down to nothing: ask for nothing
+    if let Some(a) = al {
+        if a.bal.is_empty() && r.chance(1, 2) {
+            return CMsg::BankSend { to: r.below(n as u64) as usize, coins: if r.chance(1, 2) { vec![] } else { vec![(0, Uint128::zero())] } };
+        }
+    }
     let mut coins = vec![];
     let k = 1 + r.below(2) as usize;
     for _ in 0..k {
@@ -632,7 +656,11 @@ fn gen_msg(r: &mut Rng, n: usize, al: Option<&Al>) -> CMsg {
         14 => CMsg::Redelegate,
         15 => CMsg::SetWithdraw,
         16 => CMsg::Withdraw,
-        _ => CMsg::Other(r.below(9)),
+        _ => CMsg::Other(match r.below(8) {
+            0 => 900,
+            1 => 901,
+            _ => r.below(9),
+        }),
     }
 }
 
